@@ -456,3 +456,63 @@ def run(chk, repo, tier):
     d3(chk, repo)
     d4(chk, repo)
     l5(chk, repo, rule="D5", keys={"ref_axis_pos", "taper", "sweep", "dihedral", "span"})
+    d6(chk, repo)
+
+
+GEOM_KEYS = [("twist_cp", "twist"), ("chord_cp", "chord"), ("xshear_cp", "xshear"), ("yshear_cp", "yshear"), ("zshear_cp", "zshear"), ("sweep", "sweep"), ("span", "span"), ("dihedral", "dihedral"), ("taper", "taper")]
+
+
+def d6(chk, repo):
+    """The geometric variables reach the mesh chain whatever the *_dv flags say."""
+    chk.rule("D6", "in the Geometry group, for every geometric key (twist_cp, chord_cp, xshear_cp, yshear_cp, zshear_cp, sweep, span, dihedral, taper) present in the surface dictionary the mesh subsystem promotes the corresponding input (twist, chord, ...) and, for control-point keys, a spline subsystem promotes the control points in and the distribution out under that name -- for both values of the <key>_dv flag, which only selects whether the user's value is installed as the input default.  An unpromoted mesh input is driven by its zero / unit default: the model runs, the spline output shows the user's distribution, and the mesh ignores it", min_decided=18)
+    g = [c for c in repo.groups() if c.name == "Geometry"]
+    if not g:
+        chk.undecided("D6", "Geometry", "openaerostruct/geometry/geometry_group.py", "class not found")
+        return
+    g = g[0]
+    for key_, var in GEOM_KEYS:
+        def pol(atom, key_=key_):
+            if "'%s' in surface" % key_ in atom:
+                return " not in " not in atom
+            if "'%s_dv'" % key_ in atom:
+                return None
+            if " in surface" in atom:
+                return " not in " in atom
+            if "_dv'" in atom:
+                return True
+            return False
+
+        try:
+            runs = runs_with_policy(repo, g, pol)
+        except Exception as ex:
+            chk.undecided("D6", "Geometry %s" % key_, g.where, "setup not enumerated: %s" % ex)
+            continue
+        if not runs:
+            chk.undecided("D6", "Geometry %s" % key_, g.where, "no valuation with the key present")
+            continue
+        for gr in runs:
+            dv = _flag(gr.sigma, "%s_dv" % key_)
+            k = "Geometry '%s' present, %s_dv=%s" % (key_, key_, dv)
+            subs = {s.name: s for s in gr.subsystems if s.owner == "self"}
+            mesh = subs.get("mesh")
+            if mesh is None:
+                chk.violation("D6", k, g.where, "no mesh subsystem")
+                continue
+
+            def plist(s_, kw):
+                v = s_.kwargs.get(kw)
+                return [x.tmpl for x in v.items] if v is not None and v.items is not None else None
+
+            pins = plist(mesh, "promotes_inputs")
+            if pins is None:
+                chk.undecided("D6", k, g.where, "promotes_inputs of the mesh subsystem not resolved")
+                continue
+            if var not in pins:
+                chk.violation("D6", k, g.where, "the surface has '%s' but the mesh subsystem does not promote its input '%s' (promotes_inputs = %s): the mesh chain is driven by the default value instead of the user's %s" % (key_, var, pins, key_))
+                continue
+            if key_.endswith("_cp"):
+                b = subs.get("%s_bsp" % var)
+                if b is None or var not in (plist(b, "promotes_outputs") or []) or key_ not in (plist(b, "promotes_inputs") or []):
+                    chk.violation("D6", k, g.where, "no spline subsystem promotes '%s' in and '%s' out" % (key_, var))
+                    continue
+            chk.ok("D6", k, g.where, "'%s' promoted into the mesh chain" % var)
